@@ -143,7 +143,68 @@ func expectAttr(c, k sb.V, args []sb.V) expect {
 	if nptr > 1 {
 		return expect{mode: "nopanic"}
 	}
+	if k.K == "safe" && len(k.E) == 1 && nptr <= 1 {
+		// a key wrapped as safe is the key inside
+		return expectAttr(c, k.E[0], args)
+	}
 	switch {
+	case c.K == "funcmap":
+		// functions stored in a hash are called like methods
+		switch {
+		case k.K == "str" && k.S == "url":
+			if len(args) == 1 && args[0].K == "str" {
+				return expect{mode: "elem", repr: strconv.Quote("u:" + args[0].S)}
+			}
+			if len(args) != 1 {
+				return expect{mode: "error"}
+			}
+			return expect{mode: "either", repr: "*"}
+		case k.K == "str" && k.S == "zero":
+			if len(args) == 0 {
+				return expect{mode: "elem", repr: "#7"}
+			}
+			return expect{mode: "error"}
+		case k.K == "str" && k.S == "n":
+			return expect{mode: "nopanic"}
+		}
+		return expect{mode: "error"}
+	case c.K == "values":
+		// a named map type: its entries by key, its methods by name
+		switch {
+		case k.K == "str" && k.S == "a":
+			return expect{mode: "elem", repr: `["1","2"]`}
+		case k.K == "str" && k.S == "b":
+			return expect{mode: "elem", repr: `["x"]`}
+		case k.K == "str" && k.S == "Get":
+			if len(args) == 1 && args[0].K == "str" {
+				return expect{mode: "elem", repr: strconv.Quote(map[string]string{"a": "1", "b": "x"}[args[0].S])}
+			}
+			if len(args) != 1 {
+				return expect{mode: "error"}
+			}
+			return expect{mode: "either", repr: "*"}
+		case k.K == "str" && k.S == "Encode":
+			if len(args) == 0 {
+				return expect{mode: "elem", repr: `"a=1&a=2&b=x"`}
+			}
+			return expect{mode: "error"}
+		}
+		return expect{mode: "error"}
+	case c.K == "level":
+		// a defined integer type with methods
+		if k.K == "str" && k.S == "Next" {
+			if len(args) == 1 && goType(args[0]) == "int" {
+				return expect{mode: "elem", repr: "#" + m.FmtNum(c.N+args[0].N)}
+			}
+			if len(args) != 1 {
+				return expect{mode: "error"}
+			}
+			return expect{mode: "either", repr: "*"}
+		}
+		if k.K == "str" && k.S == "String" {
+			return expect{mode: "nopanic"}
+		}
+		return expect{mode: "error"}
 	case c.K == "embednil":
 		// Page{*Meta(nil), Title}: a field promoted through the nil embedded
 		// pointer does not exist on this value
@@ -407,6 +468,7 @@ func c16Containers() []sb.V {
 		{K: "map:uint32:str", KV: []sb.V{vk("uint32", 4294967295)}, E: []sb.V{vstr("top32")}},
 		{K: "map:int8:str", KV: []sb.V{vk("int8", -1), vk("int8", 127)}, E: []sb.V{vstr("minus one"), vstr("max")}},
 		{K: "map:float64:str", KV: []sb.V{sb.V{K: "nan"}, vnum(1)}, E: []sb.V{vstr("nan"), vstr("one")}},
+		{K: "funcmap"}, {K: "values"}, {K: "level", N: 2}, {K: "ptr", E: []sb.V{{K: "funcmap"}}},
 		{K: "embednil", S: "Home"}, {K: "cyclicmap"}, {K: "cyclicnode"}, {K: "ptr", E: []sb.V{{K: "embednil", S: "P"}}},
 		{K: "map:bool:str", KV: []sb.V{{K: "bool", B: true}}, E: []sb.V{vstr("yes")}},
 		{K: "map:kstr:int", KV: []sb.V{vstr("a"), vstr("1")}, E: []sb.V{vnum(11), vnum(12)}},
@@ -432,6 +494,7 @@ func c16Containers() []sb.V {
 func c16Keys() []sb.V {
 	return []sb.V{
 		vstr("a"), vstr("b"), vstr("zz"), vstr("0"), vstr("1"), vstr("n"), vstr(""), vstr("7"),
+		vstr("url"), vstr("zero"), vstr("Get"), vstr("Encode"), vstr("Next"), {K: "safe", TS: []string{"html"}, E: []sb.V{vstr("a")}}, {K: "safe", TS: []string{"js"}, E: []sb.V{vnum(1)}}, {K: "safe", TS: []string{"html"}, E: []sb.V{vk("int", 7)}},
 		vstr("Title"), vstr("Description"), vstr("Meta"), vstr("title"), vstr("self"), vstr("missing"), sb.V{K: "nan"}, {K: "arrayofany"},
 		vstr("Name"), vstr("Age"), vstr("Tags"), vstr("M"), vstr("Inner"), vstr("priv"), vstr("Extra"), vstr("Person"), vstr("Nope"), vstr("unexported"),
 		vnum(0), vnum(1), vnum(2), vnum(3), vnum(-1), vnum(7), vnum(1.5), vnum(2.5), vnum(1e30), vnum(-1e30),
@@ -580,8 +643,20 @@ func init() {
 		// grid method x argument list on value, pointer and embedding struct
 		done = true
 		persons := []sb.V{{K: "person", S: "Bob", N: 30}, {K: "ptr", E: []sb.V{{K: "person", S: "Ann", N: 5}}}, {K: "embedder", S: "Eve", N: 41}}
+		type recv struct {
+			v     sb.V
+			meths []string
+		}
+		recvs := []recv{}
 		for _, per := range persons {
-			for _, meth := range c16Methods() {
+			recvs = append(recvs, recv{per, c16Methods()})
+		}
+		// functions held in a hash, methods of a named map type and of a defined integer type
+		recvs = append(recvs, recv{sb.V{K: "funcmap"}, []string{"url", "zero", "n", "nope"}}, recv{sb.V{K: "values"}, []string{"Get", "Encode", "a", "nope"}},
+			recv{sb.V{K: "level", N: 2}, []string{"Next", "nope"}}, recv{sb.V{K: "ptr", E: []sb.V{{K: "values"}}}, []string{"Get", "Encode"}})
+		for _, rc := range recvs {
+			per := rc.v
+			for _, meth := range rc.meths {
 				idx++
 				if !c.Mine(idx) {
 					continue
